@@ -289,9 +289,13 @@ func makeMethodArshaler(fncs *arshaler, t reflect.Type) *arshaler {
 	if _, ok := implements(t, jsonUnmarshalerType); ok {
 		fncs.nonDefault = true
 		prevUnmarshal := fncs.unmarshal
+		// For historical reasons, v1 decoded a map key of a type with an
+		// UnmarshalText method through the same path as a JSON string value,
+		// which prefers UnmarshalJSON (given the quoted name) if both exist.
+		_, alsoText := implements(t, textUnmarshalerType)
 		fncs.unmarshal = func(dec *jsontext.Decoder, va addressableValue, uo *jsonopts.Struct) error {
 			if uo.Flags.Get(jsonflags.CallMethodsWithLegacySemantics) &&
-				export.Decoder(dec).Tokens.Last.NeedObjectName() {
+				export.Decoder(dec).Tokens.Last.NeedObjectName() && !alsoText {
 				return prevUnmarshal(dec, va, uo)
 			}
 			val, err := dec.ReadValue()
